@@ -2378,6 +2378,7 @@ package goatlang
 //@   ensures#keys forall k2 int :: trig(k2) ==> (has(*m, k2) <==> (old(has(*m, k2)) || k2 == key))
 //@   ensures#total m.total == old(m.total) + ite(old(has(*m, key)), 0, 1)
 //@   ensures#arr m.pairs == old(m.pairs) || isfresh(arr(m.pairs))
+//@   uses frame: frame
 //@ func (*intMap).Set loop 0
 //@   invariant#probe forall p int :: 0 <= p && p < len(m.pairs) && m.pairs[p].distance != 0 && m.pairs[p].key == key ==> cyc(i & m.mask, key & m.mask, m.size) <= m.pairs[p].distance - 1
 //@   invariant#frame same(elemsAt(intMapPair, arr(m.pairs)), old(elemsAt(intMapPair, arr(m.pairs)))) && *m == old(*m) && hash == key
@@ -2464,7 +2465,8 @@ package goatlang
 //@   ensures#untouched forall k int, x Value :: trig(k, x) && (forall p int :: 0 <= p && p < len(data) && p % 2 == 0 ==> data[p].Int() != k) ==> (holds(as(result.value, *structT).Fields, k, x) <==> holds(as(base.value, *structT).Fields, k, x))
 //@ func newStructByIndex loop 0
 //@   invariant#idx 0 <= n && n <= len(data) && n % 2 == 0
-//@   invariant#st wfS(st) && isfresh(st) && isfresh(arr(st.Fields.pairs)) && st == as(s.value, *structT) && is(s.value, *structT)
+//@   invariant#st wfS(st)
+//@   invariant#stfresh isfresh(st) && isfresh(arr(st.Fields.pairs)) && st == as(s.value, *structT) && is(s.value, *structT)
 //@   invariant#shared st.Lookup == b.Lookup && st.Order == b.Order && st.Methods == b.Methods && s.t == TypeStruct | Type(b.TypeN<<8) && b == as(base.value, *structT)
 //@   invariant#keys forall k int :: trig(k) ==> (has(st.Fields, k) <==> has(b.Fields, k))
 //@   invariant#untouched forall k int, x Value :: trig(k, x) && (forall p int :: 0 <= p && p < n && p % 2 == 0 ==> data[p].Int() != k) ==> (holds(st.Fields, k, x) <==> holds(b.Fields, k, x))
@@ -2496,7 +2498,9 @@ package goatlang
 //@   modifies fields(as(v.value, *structT)) elems(as(v.value, *structT).Fields.pairs) elems(as(v.value, *structT).Order) M$Str$Int$dom M$Str$Int$val M$Str$Int$card
 //@   allocates elems(intMapPair) elems(string)
 //@   nopanic
-//@   ensures#wf wfS(as(v.value, *structT))
+//@   ensures#wfF as(v.value, *structT).Lookup != nil && wfIM(as(v.value, *structT).Fields)
+//@   ensures#wfM as(v.value, *structT).Methods != nil && *as(v.value, *structT).Methods == old(*as(v.value, *structT).Methods) && same(elemsAt(intMapPair, arr(as(v.value, *structT).Methods.pairs)), old(elemsAt(intMapPair, arr(as(v.value, *structT).Methods.pairs))))
+//@   ensures#sep arr(as(v.value, *structT).Fields.pairs) != arr(as(v.value, *structT).Methods.pairs)
 //@   ensures#stored trig(idx, val) ==> holds(as(v.value, *structT).Fields, idx, val)
 //@   ensures#others forall k2 int, x Value :: trig(k2, x) && k2 != idx ==> (holds(as(v.value, *structT).Fields, k2, x) <==> old(holds(as(v.value, *structT).Fields, k2, x)))
 //@   ensures#keys forall k2 int :: trig(k2) ==> (has(as(v.value, *structT).Fields, k2) <==> (old(has(as(v.value, *structT).Fields, k2)) || k2 == idx))
